@@ -7,7 +7,7 @@ wt="/tmp/mutrun/$id"
 mkdir -p /tmp/mutrun
 git -C /repo worktree add -q --detach "$wt" HEAD || exit 2
 if ! git -C "$wt" apply "$patch"; then echo "PATCH DOES NOT APPLY"; git -C /repo worktree remove --force "$wt"; exit 2; fi
-cd /verif
+cd "$(dirname "$0")/.." || exit 2
 VERIF_REPO="$wt" ./check "$prop" "$tier" > "/tmp/mutrun/$id.log" 2>&1
 rc=$?
 echo "== $patch $prop $tier -> exit $rc"
